@@ -100,6 +100,7 @@ package types
 
 //@ func (self PayloadAdapter) AdaptPacket(ctx, id, packet) (op, err)
 //@   requires[base] packet != nil
+//@   sets-post adapt_err = err
 //@   ensures[base]  err == nil ==> op != nil && op.TransferAttributes != nil && taOK(op.TransferAttributes) && op.Payload != nil && payloadOK(op.Payload)
 //@   ensures[base]  op != nil ==> err == nil
 //@   ensures[base]  err == nil ==> fresh(op) && fresh(op.TransferAttributes)
@@ -141,7 +142,7 @@ package types
 //@   requires[C01] bankNonneg(bank)
 //@   ensures[C01] err == nil ==> bal(bank, core.ModuleAddress, old(opDenom(packet))) == 0
 //@   ensures[C01] err == nil ==> forall d string :: d != old(opDenom(packet)) ==> bal(bank, core.ModuleAddress, d) <= bal(old(bank), core.ModuleAddress, d)
-//@   ensures[base] wrapped_n == old(wrapped_n) && wrapped_ret == old(wrapped_ret) && hook_n == old(hook_n) && hook_failed == old(hook_failed)
+//@   ensures[base] wrapped_n == old(wrapped_n) && wrapped_ret == old(wrapped_ret) && hook_n == old(hook_n) && hook_failed == old(hook_failed) && adapt_err == old(adapt_err)
 
 // The adapter controller behind the adapter's router (implemented by the IBC adapter).
 //@ func (self AdapterController) ParsePacket(ccPacket) (result, err)
@@ -159,4 +160,4 @@ package types
 //@   requires[C01] bankNonneg(bank)
 //@   ensures[C01] err == nil ==> bal(bank, core.ModuleAddress, old(transferAttr.destinationCoin.Denom)) == 0
 //@   ensures[C01] err == nil ==> forall d string :: d != old(transferAttr.destinationCoin.Denom) ==> bal(bank, core.ModuleAddress, d) <= bal(old(bank), core.ModuleAddress, d)
-//@   ensures[base] wrapped_n == old(wrapped_n) && wrapped_ret == old(wrapped_ret) && hook_n == old(hook_n) && hook_failed == old(hook_failed)
+//@   ensures[base] wrapped_n == old(wrapped_n) && wrapped_ret == old(wrapped_ret) && hook_n == old(hook_n) && hook_failed == old(hook_failed) && adapt_err == old(adapt_err)
